@@ -1,5 +1,6 @@
 SPECIFICATION CSpec
 CONSTANTS
+  B2 <- B2All
   Dev_LsbFirst = FALSE
   Dev_IgnoreByteOrder = FALSE
   Dev_PartialNoStrip = TRUE
